@@ -796,19 +796,28 @@ impl SvgElement {
     }
 
     pub fn bbox(&self) -> Result<Option<BoundingBox>> {
-        let mut el_bbox = if self.content_bbox.is_some() {
+        self.transformed(self.local_bbox()?)
+    }
+
+    /// The bounding box in this element's own user space, i.e. before its
+    /// `transform` attribute is applied.
+    pub fn local_bbox(&self) -> Result<Option<BoundingBox>> {
+        if self.content_bbox.is_some() {
             // container elements (`g`, `symbol`, `clipPath` etc) set this
             // to the bbox of their contents
-            self.content_bbox
+            Ok(self.content_bbox)
         } else {
-            self.bbox_raw()?
-        };
-        // apply any `transform` attr transformations to the bbox
-        if let (Some(transform), Some(ref mut bbox)) = (self.get_attr("transform"), &mut el_bbox) {
-            let transform: TransformAttr = transform.parse()?;
-            el_bbox = Some(transform.apply(bbox));
+            self.bbox_raw()
         }
-        Ok(el_bbox)
+    }
+
+    /// Apply any `transform` attr transformations to a bbox in this element's user space
+    pub fn transformed(&self, bbox: Option<BoundingBox>) -> Result<Option<BoundingBox>> {
+        if let (Some(transform), Some(bbox)) = (self.get_attr("transform"), &bbox) {
+            let transform: TransformAttr = transform.parse()?;
+            return Ok(Some(transform.apply(bbox)));
+        }
+        Ok(bbox)
     }
 
     fn bbox_raw(&self) -> Result<Option<BoundingBox>> {
